@@ -18,9 +18,10 @@ def main():
     if SRC not in sys.path:
         sys.path.insert(0, SRC)
     os.environ["PYTHONPATH"] = SRC + os.pathsep + os.environ.get("PYTHONPATH", "")
-    mod = importlib.import_module("vt.props." + a.pid)
     if a.replay:
-        sys.exit(mod.replay(a.replay))
+        from .replay import replay_file
+        sys.exit(replay_file(a.replay))
+    mod = importlib.import_module("vt.props." + a.pid)
     sys.exit(run_property(a.pid, lambda rec: mod.run(rec), tier, seed_from_env()))
 
 
